@@ -22,6 +22,13 @@ func genC08(t *rapid.T) *Case {
 	p.Top = append(append([]wc{}, p.Top...), media...)
 	p.Core = append(append([]wc{}, p.Core...), media...)
 	p.Nested = append(append([]wc{}, nestedText...), wc{"figure", 6}, wc{"video", 4}, wc{"youtube", 3}, wc{"dtable", 4}, wc{"img", 6})
+	p.Attr = func(g *G, tag string) string {
+		if tag == "img" && g.intn(0, 11, "mathimg") == 0 {
+			// MediaWiki's formula images: hidden from assistive technology, displayed all the same
+			return ` aria-hidden="true" class="` + g.pick("mathimgcls", "mwe-math-fallback-image-inline", "mwe-math-fallback-image-display", "fallback-image", "mwe-math-fallback-image-inline mw-invert") + `"`
+		}
+		return ""
+	}
 	g := newG(t, p)
 	c := &Case{Property: "C08", HTML: g.page()}
 	c.Opts = genOpts(t, 40)
